@@ -127,6 +127,8 @@ def run(ctx):
     impl, model, bad = ctx.compare(impl_p, model_p)
     ops_txt = ctx.read_lines(ops_p)
     ops = [json.loads(x) if x else {} for x in ops_txt]
+    side_p = os.path.join(out, "side.jsonl")
+    side_obs = [json.loads(x) if x else {} for x in ctx.read_lines(side_p)] if os.path.exists(side_p) else []
 
     # ---------- direct property oracle on the implementation's own lines ----------
     classes, results, distinct = Counter(), Counter(), set()
@@ -142,6 +144,8 @@ def run(ctx):
     wipes = 0              # times the client's seed changed from one list to another (wipeOnSeedChange fired)
     n_checked_conv = 0
     n_restart = 0
+    prev_side, noise_ids = None, set()
+    n_side = 0
 
     known_sig = {}         # signature -> True if it matches an open known finding
     oracle_known = Counter()
@@ -163,6 +167,7 @@ def run(ctx):
         if kind == "init":
             hist_start, d, prev, t0 = i, op["def"], None, op["t0"]
             epoch_max, accepted, sub_hist, resets, wipes = 0, {}, {}, 0, 0
+            prev_side, noise_ids = None, set()
             continue
         if kind == "get":
             classes["get"] += 1
@@ -186,10 +191,11 @@ def run(ctx):
         results[cls] += 1
         if st["S"]["rows"] or st["C"]["rows"]:
             distinct.add((kind, line))
-        if cls.startswith("panic") or cls.startswith("err:other"):
+        if cls.startswith("panic") or (cls.startswith("err:other") and not (kind == "pollall" and cls == "err:other-service-down")):
             report("C16:unexpected-outcome:" + cls.split(":")[0], f"operation {kind} ended with {cls}", i)
         S, C = st["S"], st["C"]
         pS = prev["S"] if prev else {"seed": "-", "ts": 0, "rows": []}
+        ckeys = {(r["subject"], r["id"]): r for r in C["rows"]}
         if prev and prev["C"]["seed"] not in ("-", C["seed"]):
             wipes += 1
         # at most one entry per subject (server and replica)
@@ -215,7 +221,7 @@ def run(ctx):
                 if len(new) != 1 or new[0]["id"] != vp.get("id") or new[0]["subject"] != vp["signer"][0] or new[0]["exp"] != vp["exp"] - t0:
                     report("C16:listed-row-mismatch", "the accepted presentation is not the row with the new timestamp", i)
                 epoch_max = max(epoch_max, S["ts"])
-                accepted[vp.get("id")] = (i, vp)
+                accepted[(vp["signer"][0], vp.get("id"))] = (i, vp)
                 sub_hist.setdefault(vp["signer"][0], []).append((vp["exp"], vp.get("id")))
             else:
                 if S != pS:
@@ -223,30 +229,69 @@ def run(ctx):
         elif kind == "reset":
             epoch_max = 0
             resets += 1
+        elif kind == "noise":
+            # an entry on ANOTHER list of the server: this list may only lose expired rows (add prunes every list)
+            gone = [r for r in pS["rows"] if r not in S["rows"]]
+            if S["seed"] != pS["seed"] or S["ts"] != pS["ts"] or any(r not in pS["rows"] for r in S["rows"]) or \
+                    any(r["exp"] > now - t0 + 2 for r in gone):
+                report("C16:other-list-registration-changed-this-list", "a registration on another list of the server changed this list", i)
         else:
             if S != pS and kind != "pollB":
                 report("C16:client-op-changed-server", f"{kind} changed the server list", i)
+        if kind == "purge" and prev and C != prev["C"]:
+            report("C16:purge-removed-unrevoked-entry", "removeRevoked changed the replica although nothing is revoked", i)
+        if kind in ("noise", "cnoise", "verifier", "purge", "validate") and prev:
+            pc, cc = prev["C"], C
+            if kind in ("noise", "verifier", "purge") and pc != cc and kind != "purge":
+                report("C16:unrelated-op-changed-replica", f"{kind} changed the replica", i)
+            if kind == "cnoise" and (pc["seed"] != cc["seed"] or pc["ts"] != cc["ts"] or any(r not in pc["rows"] for r in cc["rows"]) or
+                                     any(r["exp"] > now - t0 + 2 for r in pc["rows"] if r not in cc["rows"])):
+                report("C16:other-list-poll-changed-this-replica", "copying another list changed the replica of this list", i)
+        # the other list's rows on both nodes only change through operations on that list; search with a query is sound
+        sd = side_obs[i] if i < len(side_obs) else None
+        if sd and "s2S" in sd:
+            n_side += 1
+            if kind == "noise" and ops[i].get("added"):
+                noise_ids.add(op["vp"]["signer"][0] + ":" + op["vp"]["id"])
+            if kind == "reset":
+                pass
+            want = sorted(k + ":" + v for k, v in sd.get("noise", {}).items())
+            if sd["s2S"] != want:
+                report("C16:other-list-rows-wrong-on-server", f"the server's other list holds {sd['s2S']}, its registrations say {want}", i)
+            if prev_side is not None and kind not in ("cnoise", "pollall") and sd["s2C"] != prev_side["s2C"]:
+                report("C16:replica-of-other-list-changed", f"{kind} on this list changed the client's copy of another list", i)
+            if any(x not in noise_ids for x in sd["s2C"]):
+                report("C16:replica-of-other-list-holds-foreign-row", "the client's copy of the other list holds a row that was never registered there", i)
+            for sub, res in sd.get("q2", {}).items():
+                for x in res:
+                    s_, pid = x.rsplit(":", 1)
+                    r = ckeys.get((s_, pid))
+                    vpd = accepted.get((s_, pid), (None, {}))[1]
+                    if r is None or s_ != sub or not r["validated"] or r["exp"] <= now - t0 - 2 or not vpd.get("verifyC"):
+                        report("C16:search-with-query-unsound", f"client search for subject {sub} returned {x}", i)
+            prev_side = sd
+
         # every listed row stems from an accepted registration
         for r in S["rows"]:
-            if r["id"] not in accepted:
+            if (r["subject"], r["id"]) not in accepted:
                 report("C16:listed-unsound:unknown-row", "server lists a row that no accepted registration produced", i)
         # client search: only validated, unexpired rows the client verified itself
-        ckeys = {(r["subject"], r["id"]): r for r in C["rows"]}
         for (sub, pid) in st["Q"]:
             r = ckeys.get((sub, pid))
-            vpd = accepted.get(pid, (None, {}))[1]
+            vpd = accepted.get((sub, pid), (None, {}))[1]
             if r is None or not r["validated"] or r["exp"] <= now - t0 - 2 or not vpd.get("verifyC"):
                 report("C16:search-unsound", f"client search returned {sub}:{pid} which is not a validated unexpired entry it verified", i)
         for r in C["rows"]:
-            if r["validated"] and not accepted.get(r["id"], (None, {}))[1].get("verifyC"):
+            if r["validated"] and not accepted.get((r["subject"], r["id"]), (None, {}))[1].get("verifyC"):
                 report("C16:validated-without-verification", "client row is validated although the client's verifier rejects it", i)
         # a poll that meets another seed than the replica's leaves the replica empty at timestamp 0 (starting over)
-        if kind == "poll" and prev and prev["C"]["seed"] not in ("-", prev["S"]["seed"]):
+        if kind in ("poll", "pollall") and prev and prev["C"]["seed"] not in ("-", prev["S"]["seed"]):
             n_restart += 1
             if C["rows"] or C["ts"] != 0 or C["seed"] != S["seed"]:
                 report("C16:no-restart-after-seed-change", "a poll that met a new seed did not leave an empty replica at timestamp 0 with the new seed", i)
         # convergence after quiescent polls
-        if kind == "poll" and op.get("quiet", 0) >= 2:
+        in_step = prev is not None and prev["C"]["seed"] in ("-", prev["S"]["seed"])   # one poll suffices then
+        if kind in ("poll", "pollall") and (op.get("quiet", 0) >= 2 or in_step):
             n_checked_conv += 1
             rel = now - t0
             liveS = {(r["subject"], r["id"]) for r in S["rows"] if r["exp"] > rel + 2}
@@ -255,7 +300,7 @@ def run(ctx):
             liveC_lo = {(r["subject"], r["id"]) for r in C["rows"] if r["exp"] > rel - 2}
             missing = liveS - liveC_lo     # certainly live on the server, not held by the client
             stale = liveC - liveS_lo       # certainly live on the client, not listed by the server
-            if S["seed"] != C["seed"] and (S["rows"] or C["rows"]):
+            if S["seed"] != C["seed"] and (S["rows"] or C["rows"]) and op.get("quiet", 0) >= 2:
                 report("C16:replica-seed-differs-after-quiescent-polls", "client seed differs from the server's after two quiescent polls", i)
             if missing:
                 sig = "C16:replica-misses-entry-after-seed-change" if wipes else "C16:replica-misses-entry"
@@ -305,5 +350,5 @@ def run(ctx):
     if oracle_known:
         ctx.notes.append("oracle hits explained by open known findings: " + "; ".join(f"{k} x{v}" for k, v in oracle_known.items()))
     ctx.cov["input_distribution"] = {"op_classes": dict(classes.most_common()), "results": dict(results.most_common()),
-                                     "histories": sum(1 for o in ops if o.get("op") == "init"), "convergence_checks": n_checked_conv, "seed_change_restarts": n_restart}
+                                     "histories": sum(1 for o in ops if o.get("op") == "init"), "convergence_checks": n_checked_conv, "seed_change_restarts": n_restart, "side_observations": n_side}
     ctx.cov["samples"] = [ops_txt[1][:300] if len(ops_txt) > 1 else "", impl[-1][:300] if impl else ""]
